@@ -22,7 +22,7 @@ type machineCase struct {
 }
 
 const sentinelID = "~"
-const stepTimeout = 2 * time.Second
+const stepTimeout = 5 * time.Second
 
 type machineObs struct {
 	Outs       []string // per "e" move: the change taken, "none" (not attempted: model says not enabled), "timeout"
